@@ -18,6 +18,7 @@ Observation (independent of the linker under test: only output bytes are read wi
 """
 import hashlib
 import re
+import shutil
 import struct
 from pathlib import Path
 
@@ -186,6 +187,32 @@ def has_shared(cfg):
 COMMON_FLAGS = ["--no-gc-sections", "--allow-shlib-undefined"]
 
 
+_private = {}
+
+
+def private_wild():
+    """The hook-enabled build output is shared with other checks that may rebuild it while this
+    check runs (the file disappears for a moment): pin the current binary with a hard link."""
+    import os
+    from .common import TMP, build_wild, locked
+    if "w" in _private and _private["w"].exists():
+        return _private["w"]
+    src = build_wild()
+    TMP.mkdir(parents=True, exist_ok=True)
+    dst = TMP / f"wild-pinned-{os.getpid()}"
+    with locked("cargo"):
+        if dst.exists():
+            dst.unlink()
+        try:
+            os.link(src, dst)
+        except OSError:
+            shutil.copy2(src, dst)
+    import atexit
+    atexit.register(lambda: dst.exists() and dst.unlink())
+    _private["w"] = dst
+    return dst
+
+
 def link(linker, line, d, out, threads=None, env=None, extra=None):
     """Run one of the three linkers on the link line. Returns ShResult."""
     args = list(line) + ["-o", out] + (extra or [])
@@ -193,10 +220,9 @@ def link(linker, line, d, out, threads=None, env=None, extra=None):
         a = COMMON_FLAGS + args
         if threads:
             a.append(f"--threads={threads}")
-        return run_wild(a, cwd=d, env=env, timeout=30)
+        return run_wild(a, cwd=d, env=env, timeout=30, wild=private_wild())
     if linker == "ld":
-        return sh(["ld", "--allow-shlib-undefined", "-z", "nosectionheader" if False else "noexecstack"] + args,
-                  cwd=d, timeout=60)
+        return sh(["ld", "--allow-shlib-undefined", "-z", "noexecstack"] + args, cwd=d, timeout=60)
     if linker == "lld":
         return sh(["ld.lld", "--allow-shlib-undefined"] + args, cwd=d, timeout=60)
     raise ToolError(linker)
@@ -266,7 +292,12 @@ def observe(path, cfg):
             k += 1
             key = f"{fi}:{n}"
             if slot_va in dynrel and dynrel[slot_va][0] in (R_X86_64_64, R_X86_64_GLOB_DAT):
-                bind[key] = "dyn"
+                nm = dynrel[slot_va][1]
+                provided = any(g["kind"] in ("shared", "asneeded") and f"s{gi}.so" in needed
+                               and g["syms"].get(nm, {}).get("def") in DEFS_DEFINED
+                               for gi, g in enumerate(files, 1))
+                # a dynamic reference no linked library satisfies is an undefined weak: 0 at run time
+                bind[key] = "dyn" if provided else "zero"
                 continue
             if q == 0:
                 bind[key] = "zero"
@@ -319,3 +350,147 @@ def run_case(cfg, d, linkers=("wild", "ld", "lld"), variant=0, threads=None, env
 
 def cfg_key(cfg):
     return hashlib.sha1(repr(cfg).encode()).hexdigest()[:10]
+
+
+# ---------------------------------------------------------------------------------------------
+# Replay of TLC records with the three-way vote.
+
+import json
+import os
+import random
+import shutil
+from concurrent.futures import ThreadPoolExecutor
+
+from .common import save_replay, log
+
+
+def norm_outcome(o, cfg):
+    """{error, loaded (regular files only), bind} from a spec outcome or an observation."""
+    files = cfg["files"]
+    reg = [i for i in (o.get("loaded") or []) if files[i - 1]["kind"] not in ("shared", "asneeded")]
+    b = o.get("bind") or {}
+    if isinstance(b, list):
+        b = {}
+    return {"error": o["error"], "loaded": sorted(reg), "bind": dict(sorted(b.items()))}
+
+
+def same(a, b, aspects):
+    if a["error"] != b["error"]:
+        return False
+    if a["error"] != "none":
+        return True
+    return all(a[k] == b[k] for k in aspects if k != "error")
+
+
+def divergence_key(rec, w, m, aspects):
+    """Stable key of a mismatch between wild and the rule."""
+    if same(w, m, aspects):
+        if rec.get("causes"):
+            return "quirk:" + "+".join(sorted(rec["causes"]))
+        if rec.get("loadDiv"):
+            return "shadowed-lazy-definition"
+        return "as-modelled-unclassified"
+    return "unexpected"
+
+
+def replay_one(rec, d, idx, seed, aspects, reference):
+    """Returns dict(status=..., ...). reference: 'both' | 'ld' | 'lld'."""
+    cfg = {"files": rec["files"], "opts": {"allowMultiple": rec["opts"]["allowMultiple"],
+                                           "undef": sorted(rec["opts"]["undefs"]),
+                                           "wrap": sorted(rec["opts"]["wrap"])}}
+    rng = random.Random(seed * 1000003 + idx)
+    variant = rng.choice([0, 0, 1, 2, 3, 4])
+    threads = rng.choice([1, 2, 4, 8])
+    env = {"WILD_VERIF_YIELD_SEED": str(rng.getrandbits(31))} if rng.random() < 0.5 else {}
+    res, line = run_case(cfg, d, variant=variant, threads=threads, env=env)
+    R = norm_outcome(rec["expect"], cfg)
+    M = norm_outcome(rec["model"], cfg)
+    W, G, L = (norm_outcome(res[k], cfg) for k in ("wild", "ld", "lld"))
+    info = {"idx": idx, "line": line, "variant": variant, "threads": threads, "env": env, "cfg": cfg,
+            "expect": R, "model": M, "wild": W, "ld": G, "lld": L,
+            "raw": {k: {kk: vv for kk, vv in v.items() if kk in ("rc", "msg", "needed", "error")} for k, v in res.items()}}
+    if res["wild"]["error"] in ("crash", "hang", "other") or res["wild"]["error"].startswith("bad-output"):
+        info["status"] = "wild-abnormal"
+        return info
+    for k in ("ld", "lld"):
+        if res[k]["error"] in ("crash", "hang"):
+            info["status"] = "tool-failure"
+            return info
+    okG, okL = same(G, R, aspects), same(L, R, aspects)
+    support = {"both": okG or okL, "ld": okG, "lld": okL}[reference]
+    refs_agree = same(G, L, aspects)
+    info["support"] = support
+    if same(W, R, aspects):
+        info["status"] = "ok" if support else ("ok-oracles-differ" if not refs_agree or reference != "both" else "spec-vs-oracles")
+        return info
+    if not support:
+        info["status"] = "spec-vs-oracles" if (refs_agree and reference == "both") or \
+            (reference == "ld" and not okG) or (reference == "lld" and not okL) else "undecided"
+        return info
+    info["status"] = "mismatch"
+    info["key"] = divergence_key(rec, W, M, aspects)
+    return info
+
+
+def replay_records(ctx, prop, records, aspects, reference, jobs=8, known_oracle_classes=None, label=""):
+    """Replay records (list of (idx, rec)). Reports violations through ctx.verdict. Returns stats."""
+    from .common import scratch
+    stats = {"replayed": 0, "ok": 0, "ok_oracles_differ": 0, "mismatch": {}, "undecided": 0, "spec_vs_oracles": 0,
+             "samples": []}
+    spec_bugs = []
+    with scratch(f"{prop.lower()}{label}") as top:
+        def job(item):
+            idx, rec = item
+            d = top / f"c{idx}"
+            d.mkdir()
+            try:
+                info = replay_one(rec, d, idx, ctx.seed, aspects, reference)
+            except ToolError as e:
+                info = {"status": "tool-failure", "idx": idx, "error": str(e)}
+            info["dir"] = d
+            return info
+
+        with ThreadPoolExecutor(max_workers=jobs) as ex:
+            for info in ex.map(job, records):
+                stats["replayed"] += 1
+                st = info["status"]
+                d = info.pop("dir")
+                if st == "ok":
+                    stats["ok"] += 1
+                    if len(stats["samples"]) < 3:
+                        stats["samples"].append({"line": info["line"], "expect": info["expect"], "wild": info["wild"]})
+                elif st == "ok-oracles-differ":
+                    stats["ok"] += 1
+                    stats["ok_oracles_differ"] += 1
+                elif st == "undecided":
+                    stats["undecided"] += 1
+                elif st == "spec-vs-oracles":
+                    cls = (known_oracle_classes(info) if known_oracle_classes else None)
+                    if cls:
+                        stats.setdefault("oracle_known_" + cls, 0)
+                        stats["oracle_known_" + cls] += 1
+                    else:
+                        stats["spec_vs_oracles"] += 1
+                        spec_bugs.append(info)
+                elif st == "tool-failure":
+                    raise ToolError(f"reference linker / generator failed on case {info.get('idx')}: {info}")
+                elif st == "wild-abnormal":
+                    r = info["raw"]["wild"]
+                    key = f"abnormal:{r['error']}"
+                    ctx.verdict.report(key, f"wild ended abnormally ({r['error']}, rc={r['rc']}) on {info['line']}: {r['msg'][-200:]}",
+                                       lambda: save_replay(prop, f"{key.replace(':', '-')}-{info['idx']}", d, meta=info))
+                else:
+                    key = info["key"]
+                    stats["mismatch"][key] = stats["mismatch"].get(key, 0) + 1
+                    text = (f"{' '.join(info['line'])}: expected {json.dumps(info['expect'])} "
+                            f"(ld {'agrees' if same(info['ld'], info['expect'], aspects) else 'differs'}, "
+                            f"lld {'agrees' if same(info['lld'], info['expect'], aspects) else 'differs'}) "
+                            f"but wild gives {json.dumps(info['wild'])}")
+                    ctx.verdict.report(key, text,
+                                       lambda: save_replay(prop, f"{key.replace(':', '-').replace('+', '_')}-{info['idx']}", d, meta=info))
+                shutil.rmtree(d, ignore_errors=True)
+    if spec_bugs:
+        ex = spec_bugs[0]
+        raise ToolError(f"{len(spec_bugs)} configuration(s) where GNU ld and lld agree with each other but not with the "
+                        f"rule (spec bug), first: {json.dumps({k: ex[k] for k in ('line', 'expect', 'ld', 'lld', 'wild')})}")
+    return stats
